@@ -870,6 +870,65 @@ pub fn long_line(ctx: &BoardCtx, root: &Pos, plies: usize, rule: u64) -> u64 {
     }
 }
 
+/// C12 on boards WITH a history: `k` plies are made on one board (with a probe of the legal moves at
+/// every ply, which makes and unmakes every pseudo-legal move), `j` of them are taken back, and the
+/// FEN of the board is written through BOTH conversions — `Fen::from(&board)` and the owned
+/// `Fen::from(board)` / `.into()` — and compared with the reference position of ply k-j. A board
+/// that has been worked on must write the same text as one read from a FEN. Returns boards written.
+pub fn c12_history_writes(ctx: &BoardCtx, root: &Pos, rule: u64, ks: &[usize]) -> u64 {
+    let fen = root.to_fen();
+    let mut written = 0u64;
+    for &k in ks {
+        for j in 0..=k.min(3) {
+            let r = guarded(|| -> Option<(String, String, String, usize)> {
+                let mut b = board_from_pos(root).ok()?;
+                let mut line: Vec<Pos> = vec![root.clone()];
+                let mut made: Vec<Move> = Vec::new();
+                for ply in 0..k {
+                    let p = line.last().unwrap().clone();
+                    let legal = p.legal();
+                    let cands: Vec<&Mv> = legal.iter().filter(|m| p.make(m).has_legal_move() && p.half < 4000).collect();
+                    if cands.is_empty() {
+                        break;
+                    }
+                    let rm = *cands[((ply as u64).wrapping_mul(rule).wrapping_add(rule >> 3) % cands.len() as u64) as usize];
+                    if ply % 2 == 0 {
+                        let _ = b.generate_legal_moves();
+                    }
+                    let sm = b.generate_pseudo_legal_moves().into_iter().find(|m| mkey_sub(m) == mkey_ref(&rm))?;
+                    b.make(sm);
+                    made.push(sm);
+                    line.push(p.make(&rm));
+                }
+                let back = j.min(made.len());
+                for _ in 0..back {
+                    let mv = made.pop().unwrap();
+                    b.unmake(mv);
+                    line.pop();
+                }
+                let expected = line.last().unwrap().to_fen();
+                let by_ref = Fen::from(&b).fen;
+                let owned: Fen = b.into();
+                Some((expected, by_ref, owned.fen, made.len()))
+            });
+            match r {
+                Ok(Some((expected, by_ref, owned, kept))) => {
+                    written += 1;
+                    for (name, got) in [("Fen::from(&board)", &by_ref), ("Fen::from(board)", &owned)] {
+                        if *got != expected {
+                            let d = fen_field_diff(&expected, got);
+                            ctx.rep.report(format!("write_after_history:{}:{}", if name.contains('&') { "by_reference" } else { "owned" }, d.join("+")), json!({"kind": "history_write", "fen": fen, "rule": rule, "plies_made": k, "plies_taken_back": j, "plies_on_the_board": kept, "conversion": name, "expected": expected, "written": got}));
+                        }
+                    }
+                }
+                Ok(None) => {}
+                Err(m) => ctx.viol(format!("panic:history_write:{}", short(&m)), &fen, json!({"kind": "history_write", "rule": rule, "plies_made": k, "plies_taken_back": j, "panic": m})),
+            }
+        }
+    }
+    written
+}
+
 /// C01 over histories: the position is reached through the subject's OWN make sequence (never
 /// rebuilt from FEN), the reference position is threaded alongside; at every node the legal move
 /// set offered by the board must equal the reference's. Catches state that only a history can
@@ -1451,6 +1510,17 @@ fn c12(ctx: &BoardCtx, p: &Pos, fen: &str, b: &Bitboard) {
                 }
             }
             Err(m) => ctx.viol(format!("panic:read_back_of_written_fen_object:{}", short(&m)), fen, json!({"panic": m})),
+        }
+    }
+    // the owned conversion (Fen::from(board) / .into()) against the by-reference one
+    if let Ok(Ok(b_owned)) = guarded(|| Bitboard::from_fen_string(fen)) {
+        match guarded(|| -> Fen { b_owned.into() }) {
+            Ok(f) => {
+                if f.fen != written {
+                    ctx.viol("entry_points:owned_conversion_differs".into(), fen, json!({"by_reference": written, "owned": f.fen}));
+                }
+            }
+            Err(m) => ctx.viol(format!("panic:owned_conversion:{}", short(&m)), fen, json!({"panic": m})),
         }
     }
     // 4-field form: clocks default to 0 and 1
